@@ -111,20 +111,30 @@ fn check_unit(spec: &Spec, prefixes: &[Vec<f64>], t: usize, unit: f64, st: &mut 
         h.extend((0..upto.min(200)).map(|k| tail[k % tail.len()]));
         h
     };
-    for tail0 in TAILS {
+    // besides the periodic tails, two constant tails (0 and 1) judged for finiteness and the documented
+    // bound only, over at least 1400 steps: the output of a recursive view then decays through the
+    // subnormal range to exactly zero, and whatever follows it must survive tiny and zero differences
+    let const_tails: [&[f64]; 2] = [&[0.0], &[1.0]];
+    let all_tails: Vec<(&[f64], bool)> = TAILS.iter().map(|t| (*t, false)).chain(const_tails.iter().filter(|_| unit == 1.0).map(|t| (*t, true))).collect();
+    for (tail0, constant) in all_tails {
+        let t = if constant { t.max(1400) } else { t };
         let scaled: Vec<f64> = tail0.iter().map(|x| x * unit).collect();
         let tail: &[f64] = &scaled;
         let xmax = tail0.iter().fold(1.0f64, |m, x| m.max(x.abs()));
         // A normalising view fed by an inner view whose output dies out on this tail divides
         // rounding residue by rounding residue (0/0 by construction): such (chain, tail) pairs
         // carry no meaning and are skipped, decided on the stand-alone inner view.
-        if normalising(spec.kind) && spec.ch[0].kind != Kind::Echo {
+        // (such pairs are still held to finiteness and to the documented absolute bound: what the outer
+        // view is handed there - differences and ranges that are tiny, subnormal or exactly zero - is
+        // ordinary in-domain input)
+        let mut degenerate = constant;
+        if !constant && normalising(spec.kind) && spec.ch[0].kind != Kind::Echo {
             if let Ok(inner) = run_one(&spec.ch[0], &[], tail, t) {
                 let lastq: Vec<f64> = inner[3 * t / 4..].iter().flatten().copied().collect();
                 let (lo, hi) = lastq.iter().fold((f64::MAX, f64::MIN), |(l, h), x| (l.min(*x), h.max(*x)));
                 if lastq.is_empty() || hi - lo < 1e-6 {
-                    st.bump("degenerate_chain_tail_pairs_skipped", 1);
-                    continue;
+                    st.bump("degenerate_chain_tail_pairs_bounded_only", 1);
+                    degenerate = true;
                 }
             }
         }
@@ -171,12 +181,12 @@ fn check_unit(spec: &Spec, prefixes: &[Vec<f64>], t: usize, unit: f64, st: &mut 
             }
             st.out(Some(sup));
             // (with a tiny unit the normaliser is still catching up over the first quarter)
-            if unit == 1.0 && sup > (1.0 + 1e-6) * sup_q + 1e-12 {
+            if unit == 1.0 && !degenerate && sup > (1.0 + 1e-6) * sup_q + 1e-12 {
                 sink.push(Violation::new("C09", spec, "bound-grows-with-length", "f64", &history(p, tail, 200), format!("sup|out| over the first {} tail steps is {:e} but over {} steps it is {:e}: the bound grows with the stream length", t / 4, sup_q, t, sup)));
                 return;
             }
             // (b) fading memory against the empty prefix
-            if p.is_empty() && unit == 1.0 {
+            if (p.is_empty() && unit == 1.0) || degenerate {
                 continue;
             }
             // value-like outputs must agree to 1e-9 of the input scale; self-normalised
